@@ -54,4 +54,14 @@ theorem evalExprM_eq_spec {D : Dataset} {g : Graph} {c : Row n} :
     simp only [Model.evalExpr, Spec.evalExpr, evalExprM_eq_spec a hf]
   | .exists _ _, hf => by simp [Expr.existsFree] at hf
 
+/-- what the push-down lemmas need from a filter / BIND expression: rdflib's evaluation only looks at the
+    expression's variables, and is the specification's (at the empty substitution) -/
+structure ExprOK (D : Dataset) (g : Graph) (n : Nat) (e : Expr) : Prop where
+  congr : ∀ c1 c2 : Row n, (∀ v ∈ e.vars, c1.get v = c2.get v) →
+    Model.evalExpr D g c1 e = Model.evalExpr D g c2 e
+  spec : ∀ c : Row n, Model.evalExpr D g c e = Spec.evalExpr D g Row.empty c e
+
+theorem exprOK_of_existsFree {D : Dataset} {g : Graph} {e : Expr} (h : e.existsFree = true) : ExprOK D g n e :=
+  ⟨fun _ _ hc => evalExprM_congr e h hc, fun _ => evalExprM_eq_spec e h⟩
+
 end RV.C04
